@@ -224,14 +224,30 @@ impl<T: Types> RaftLog<T> {
         let mut last_log_id = None;
 
         for chunk_id in chunk_ids.iter().copied() {
+            Self::ensure_consecutive_chunks(prev_end_offset, chunk_id)?;
+
+            let (chunk, records) = Chunk::open(config.clone(), chunk_id)?;
+
+            if records.is_empty() {
+                if Some(&chunk_id) != chunk_ids.last() {
+                    return Err(io::Error::new(
+                        io::ErrorKind::InvalidData,
+                        format!("{} holds no complete record", chunk_id),
+                    ));
+                }
+
+                // A crash before the head record of a new chunk reached the
+                // disk leaves an empty last chunk. It holds nothing: remove
+                // it and continue from the previous chunk.
+                drop(chunk);
+                std::fs::remove_file(config.chunk_path(chunk_id))?;
+                break;
+            }
+
             // Only the last chunk(open chunk) needs to keep all log payload in
             // cache. Therefore, payloads in previous chunks are marked as
             // evictable.
             sm.payload_cache.write().unwrap().set_last_evictable(last_log_id);
-
-            Self::ensure_consecutive_chunks(prev_end_offset, chunk_id)?;
-
-            let (chunk, records) = Chunk::open(config.clone(), chunk_id)?;
 
             for (i, record) in records.into_iter().enumerate() {
                 let start = chunk.global_offsets[i];
